@@ -396,3 +396,55 @@ def vc_binary_chain(H, ops=None):
 def vc_unary_chain(H):
     vc_getitem(H, 'UnaryOperatorDict')
     vc_unary_call(H)
+
+
+# =====================================================================================
+# Registry.__call__ (C09/C11): registered functions dispatch by key pattern, call by name under a wrapper
+# =====================================================================================
+def vc_registry_call(H):
+    fuc = H.fn(REL, 'Registry.__call__')
+    # (a) multivector operands
+    for wrapper_case in ('none', 'set'):
+        def body(ctx, wrapper_case=wrapper_case):
+            W = _world(ctx, wrapper_case, True, 'Registry')
+            ko, fn = _std_lookup(W)
+            mv1, mv2 = _mv('mv1', W['alg'], False), _mv('mv2', W['alg'], False)
+            inner = mv2
+            thunk = sym('thunk', isinstance_of=('Callable',), callable_result=lambda i, m, a, k: inner)
+            interp = Interp(ctx, source_name=REL)
+            env = _env({'list': list, 'range': range, 'len': len, 'all': all, 'any': any, 'tuple': tuple})
+            r = H.closure(interp, fuc, env)(W['me'], mv1, thunk)
+            k = lambda m: Rec('call', Rec('attr', m, 'keys'), (), {})
+            v = lambda m: Rec('call', Rec('attr', m, 'values'), (), {})
+            look = _events(ctx, 'lookup')
+            ctx.oblige('C10/C09: registered function looked up by the key tuples of its (unwrapped) arguments, in order',
+                       len(look) == 1 and same(look[0][1], (k(mv1), k(mv2))))
+            direct = Rec('call', fn, (v(mv1), v(mv2)), {})
+            byname = Rec('call', Rec('item', W['numspace'], Rec('attr', fn, '__name__')), (v(mv1), v(mv2)), {})
+            vals = direct if wrapper_case == 'none' else byname
+            exp = Rec('call', Rec('attr', env['MultiVector'], 'fromkeysvalues'), (W['alg'],), {'keys': ko, 'values': vals})
+            ctx.oblige('C11: result pairs keys_out with func(*values) (by name from numspace when a wrapper is set)',
+                       same(r, exp), meta={'got': repr(r), 'expected': repr(exp)})
+            ctx.oblige('C09 frame: operands are not written', not _events(ctx, 'setattr') and not _events(ctx, 'setitem'))
+            return r
+        H.run_paths(fuc, f'mvs,wrapper={wrapper_case}', body)
+
+    # (b) tape operands (a registered function called inside another registered function)
+    def body(ctx):
+        W = _world(ctx, 'none', True, 'Registry')
+        ko, fn = _std_lookup(W)
+        t1 = sym('tape1', attrs={'expr': 'EXPR1'}, isinstance_of=('TapeRecorder',))
+        t2 = sym('tape2', attrs={'expr': 'EXPR2'}, isinstance_of=('TapeRecorder',))
+        fn.attrs['__name__'] = 'FNAME'
+        interp = Interp(ctx, source_name=REL)
+        env = _env({'list': list, 'range': range, 'len': len, 'all': all, 'any': any, 'tuple': tuple})
+        r = H.closure(interp, fuc, env)(W['me'], t1, t2)
+        k = lambda m: Rec('call', Rec('attr', m, 'keys'), (), {})
+        look = _events(ctx, 'lookup')
+        ctx.oblige('C11: nested registered call is looked up by the tapes\' key tuples, in order',
+                   len(look) == 1 and same(look[0][1], (k(t1), k(t2))))
+        exp = Rec('call', env['TapeRecorder'], (W['alg'],), {'keys': ko, 'expr': 'FNAME(EXPR1, EXPR2)'})
+        ctx.oblige('C11: records the call by function name with the argument expressions in order',
+                   same(r, exp), meta={'got': repr(r), 'expected': repr(exp)})
+        return r
+    H.run_paths(fuc, 'tapes', body)
